@@ -1348,12 +1348,8 @@ impl<K: KeyT, V: ValT> MapWorld<K, V> {
     }
 
     fn op_eq(&mut self, si: usize, ti: usize, op: &Op) -> VResult {
-        if si == ti {
-            return Ok(());
-        }
-        // == needs V: PartialEq; compare through a projection that hashbrown's PartialEq would use is not
-        // available for arbitrary V, so equality is checked on the key/value ids via the public semantics:
-        // same length and every pair of one found in the other.
+        // `==` both ways (also of a map with itself), against model equality: same keys with equal values, where
+        // a value with the NaN-like payload is not equal to anything, itself included
         let fc = self.fctx(si, op);
         let a = self.slots[si].map.as_ref().unwrap();
         let b = self.slots[ti].map.as_ref().unwrap();
@@ -1366,9 +1362,10 @@ impl<K: KeyT, V: ValT> MapWorld<K, V> {
         let mut y: Vec<(u32, u32)> = self.slots[ti].model.e.iter().map(|e| (e.kid, e.v)).collect();
         x.sort();
         y.sort();
-        let want = x == y;
+        let nan = V::HAS_NAN && x.iter().any(|p| p.1 == crate::elem::NAN_VAL);
+        let want = x == y && !nan;
         if ab != want || ba != want {
-            vio!(self, "eq/EqSlots", "a == b is {ab}, b == a is {ba}, the models are equal: {want}");
+            vio!(self, "eq/EqSlots", "a == b is {ab}, b == a is {ba}, the models are equal: {want} (same object: {}, a value unequal to itself present: {nan})", si == ti);
         }
         Ok(())
     }
